@@ -62,6 +62,26 @@ def base_cfg(rng, rule, n):
 
 def cases(rng, tier, shard, nshards, phase):
     if phase == "corpus":
+        # the discrete corners are enumerated completely on every run (a random stream meets "m = 0 for RandomDictator"
+        # only a couple of times per run): every rule with a seat count x every kind of seat count; Alaska's stage sizes
+        from ..common import seed_rng
+        crng = seed_rng("c20-corpus")
+        k = 0
+        for rule in M_RULES:
+            for kind in ["zero", "negative", "n+1", "n+5", "n", "one"]:
+                k += 1
+                if k % nshards != shard:
+                    continue
+                if rule in ("Rating", "Approval", "Cumulative"):
+                    spec = gen.gen_score_spec(crng, nmin=2, nmax=5, L=1, budget=1, bmin=1, bmax=6)
+                else:
+                    spec = gen.gen_ranked_spec(crng, nmin=2, nmax=5, ties=False, partial=True, bmin=2, bmax=7,
+                                               weights="int" if rule == "PluralityVeto" else "mixed")
+                n = len(spec["c"])
+                cfg = base_cfg(crng, rule, n)
+                cfg["m"] = {"zero": 0, "negative": -2, "n+1": n + 1, "n+5": n + 5, "n": n, "one": 1}[kind]
+                yield {"stream": "m-range", "rule": rule, "spec": spec, "pos": "first", "rs": 1, "cfg": cfg, "kind": kind,
+                       "expect": "accept" if kind in ("n", "one") else "ValueError"}
         return
     total = N_THOROUGH if tier == "thorough" else N_QUICK
     if phase.startswith("search"):
